@@ -36,6 +36,8 @@ EXTENDS Integers, Sequences, FiniteSets, TLC, Json
 CONSTANTS Spaces,     \* which spaces this run enumerates
           CondDepth,  \* deepest condition tree has CondDepth + 1 levels
           ItemDepth,  \* deepest stack item tree has ItemDepth + 1 levels
+          CSibs,      \* leaf conditions used as siblings of a deep sub-tree
+          ISibs,      \* leaf items used as siblings of a deep sub-tree
           MutFields,  \* field ordinals 0..MutFields-1 from the head and from the tail
           Tags,       \* byte values written over one-byte fields (type tags, flags, enumerations)
           JMutNodes   \* JSON node ordinals 0..JMutNodes-1
@@ -52,7 +54,7 @@ SeqMax(s) == IF s = <<>> THEN 0 ELSE Max(Head(s), SeqMax(Tail(s)))
 (* [t, cs, rep]: rep > 0 means "rep copies of cs[1]"; rep = -1 means no children at all (an empty And / Or) *)
 Leaf(t) == [t |-> t, cs |-> <<>>, rep |-> 0]
 CLeaves == {Leaf(t) : t \in {"BoolT", "BoolF", "ScriptHash", "Group", "CalledByEntry", "CalledByContract", "CalledByGroup"}}
-CSib == {Leaf("BoolT"), Leaf("Group")}
+CSib == {Leaf(t) : t \in CSibs}
 CNode(t, cs) == [t |-> t, cs |-> cs, rep |-> 0]
 RECURSIVE CT(_)
 CT(d) ==
@@ -121,7 +123,7 @@ AttrLegal(c) ==
 It(t, n) == [t |-> t, n |-> n, sub |-> <<>>]
 ILeaves == {It("Any", 0), It("Bool", 0), It("Bool", 1), It("Int", 0), It("Int", 1), It("Int", 2), It("Int", 3), It("Int", 4),
             It("Bytes", 0), It("Bytes", 1), It("Bytes", 64), It("Buffer", 0), It("Buffer", 1), It("Interop", 0), It("Pointer", 7)}
-ISib == {It("Any", 0), It("Int", 1), It("Bytes", 1)}
+ISib == {x \in ILeaves : x.t \in ISibs /\ x.n \in {0, 1}}
 IKeys == {It("Bool", 1), It("Int", 1), It("Bytes", 1)}
 INode(t, sub) == [t |-> t, n |-> 0, sub |-> sub]
 RECURSIVE IT(_)
